@@ -544,6 +544,19 @@ func genLoop(seed uint64, caseNo int, rate int) caseOut {
 	}
 	ru := torsim.NewRunner()
 	ru.Name = fmt.Sprintf("c10-%d-%d", seed, caseNo)
+	// oracle-only schedules: held loop (request/notification races), full event queue,
+	// completions through the real finalisePiece
+	switch x := r.Intn(100); {
+	case x < 10:
+		torsim.GenRaceCase(r, ru, rate)
+		return caseOut{ru.Lines, ru.Viol, ru.Tags}
+	case x < 22:
+		torsim.GenFullCase(r, ru, rate)
+		return caseOut{ru.Lines, ru.Viol, ru.Tags}
+	case x < 34:
+		torsim.GenFinaliseCase(r, ru, rate)
+		return caseOut{ru.Lines, ru.Viol, ru.Tags}
+	}
 	ps := r.PickInt(16384, 32768)
 	n := 2 + r.Intn(4)
 	total := int64(n*ps - r.PickInt(0, 1, 5000, ps-1))
